@@ -101,6 +101,35 @@ Theorem C18_alias_cycle_terminates : forall tbl p, resolve_alias tbl p <> RFuel.
 Proof. exact resolve_terminates. Qed.
 Print Assumptions C18_alias_cycle_terminates.
 
+(* the proxy's alias tokeniser against git's split_cmdline (git_split: TRUSTED transcription of
+   git 2.39 alias.c, validated against /usr/bin/git): they agree on every value outside the
+   decidable edge class alias_edge (known class C18-K5), and really differ on each edge kind *)
+Theorem C18_alias_split_agrees :
+  forall v, alias_edge v = false -> is_shell_alias v = false -> parse_alias_tokens v = git_split v.
+Proof. exact alias_split_agrees. Qed.
+Print Assumptions C18_alias_split_agrees.
+
+(* a shell alias is not expanded by the proxy: the user's invocation is handed to git unchanged *)
+Theorem C18_alias_shell_none : forall v, is_shell_alias v = true -> parse_alias_tokens v = None.
+Proof. exact alias_shell_none. Qed.
+Print Assumptions C18_alias_shell_none.
+
+Theorem C18_alias_split_refuted :
+  (alias_edge w_empty_quoted = true /\ parse_alias_tokens w_empty_quoted = Some [v_rp]
+     /\ git_split w_empty_quoted = Some [v_rp; []]) /\
+  (alias_edge w_trailing_bs = true /\ parse_alias_tokens w_trailing_bs = Some [v_rp ++ [92]]
+     /\ git_split w_trailing_bs = None) /\
+  (alias_edge w_vt = true /\ parse_alias_tokens w_vt = Some [v_rp; [97]]
+     /\ git_split w_vt = Some [v_rp ++ [11; 97]]) /\
+  (alias_edge w_nbsp = true /\ parse_alias_tokens w_nbsp = Some [v_rp; [97]]
+     /\ git_split w_nbsp = Some [v_rp ++ [160; 97]]) /\
+  (alias_edge w_trailing_blank = true /\ parse_alias_tokens w_trailing_blank = Some [v_rp]
+     /\ git_split w_trailing_blank = Some [v_rp; []]) /\
+  (alias_edge w_leading_blank = true /\ parse_alias_tokens w_leading_blank = Some [v_rp]
+     /\ git_split w_leading_blank = Some [[]; v_rp]).
+Proof. exact alias_split_refuted. Qed.
+Print Assumptions C18_alias_split_refuted.
+
 (* non-vacuity *)
 Example C18_ex_identity_hyp :
   no_pre_command_meta [t_C; t_commit; t_gitdir_eq; t_status; t_dhelp] = true /\
@@ -132,3 +161,10 @@ Example C18_ex_alias_cycle :
   (exists p, resolve_alias [(t_a, t_b); (t_b, v_log_oneline)] (parse [t_C; t_commit; t_a; t_short]) = RSome p
              /\ to_vec p = [t_C; t_commit; t_log; t_oneline; t_m1; t_short]).
 Proof. exact ex_alias_cycle. Qed.
+
+Example C18_ex_alias_no_edge :
+  alias_edge w_ok_quoted = false /\ is_shell_alias w_ok_quoted = false /\
+  git_split w_ok_quoted = Some [[97; 92; 98]; [99; 34; 100]; [101; 32; 102]; [103; 104]] /\
+  alias_edge w_ok_format = false /\ is_shell_alias w_ok_format = false /\
+  alias_edge v_log_oneline = false.
+Proof. exact ex_alias_no_edge. Qed.
